@@ -279,6 +279,13 @@ inductive Slot
   | bytes (b : Blk) (f : String) (len : Option Expr)     -- `none`: up to the end of the block
   | arr (b : Blk) (f : String)
   | sub (b : Blk) (f : String) (typ : String) (win : Option Nat)
+  -- list fields (never produced by `layoutM` / `layoutU`; the loop fragment of `Model/SmbLoops.lean`):
+  -- `ints`: the integers of `c.F` one after the other (`cnt`: the count field the unmarshal loop runs to, `none` for a
+  -- fixed array); `subs`: the nested values of `c.F` one after the other (`cnt`, `size`: count field and window of the unmarshal loop)
+  | ints (b : Blk) (w : Nat) (e : End) (f : String) (cnt : Option String)
+  | subs (b : Blk) (f : String) (typ : String) (cnt : Option String) (size : Option Nat)
+  -- an optional integer: on the wire iff non-zero (`wc`: the word count under which Unmarshal reads it)
+  | opt (b : Blk) (w : Nat) (e : End) (f : String) (wc : Option Nat)
   deriving DecidableEq, Repr, Inhabited
 
 def layoutM : List MStmt → Option (List Slot)
@@ -309,7 +316,7 @@ def layoutU : List UStmt → Option (List Slot)
   | _ :: _ => none
 
 def Slot.blk : Slot → Blk
-  | .int b .. | .u8 b .. | .bytes b .. | .arr b .. | .sub b .. => b
+  | .int b .. | .u8 b .. | .bytes b .. | .arr b .. | .sub b .. | .ints b .. | .subs b .. | .opt b .. => b
 
 /-- slot of the marshal side vs slot of the unmarshal side (the unmarshal side knows lengths/windows) -/
 def Slot.agrees : Slot → Slot → Bool
@@ -318,6 +325,9 @@ def Slot.agrees : Slot → Slot → Bool
   | .bytes b f _, .bytes b' f' _ => b == b' && f == f'
   | .arr b f, .arr b' f' => b == b' && f == f'
   | .sub b f t _, .sub b' f' t' _ => b == b' && f == f' && t == t'
+  | .ints b w e f _, .ints b' w' e' f' _ => b == b' && w == w' && e == e' && f == f'
+  | .subs b f t _ _, .subs b' f' t' _ _ => b == b' && f == f' && t == t'
+  | .opt b w e f _, .opt b' w' e' f' _ => b == b' && w == w' && e == e' && f == f'
   | _, _ => false
 
 def agreeAll : List Slot → List Slot → Bool
@@ -332,7 +342,7 @@ def restOnlyLast : List Slot → Bool
   | _ :: r => restOnlyLast r
 
 def Slot.field : Slot → String
-  | .int _ _ _ f | .u8 _ f | .bytes _ f _ | .arr _ f | .sub _ f _ _ => f
+  | .int _ _ _ f | .u8 _ f | .bytes _ f _ | .arr _ f | .sub _ f _ _ | .ints _ _ _ f _ | .subs _ f _ _ _ | .opt _ _ _ f _ => f
 
 /-- wire size of the nested types whose encoding has the same length for every value (what the
     literal guards and fixed windows in front of a nested read are compared with) -/
@@ -466,6 +476,12 @@ def slotBytes (C : Codecs) (env : Env) : Slot → Bytes
     match env.get f with
     | some (.t v) => (match C.enc typ v with | .ok (bs, _) => bs | _ => [])
     | _ => []
+  | .ints _ w e f _ => match env.get f with | some (.ns xs) => xs.flatMap (intBytes w e) | _ => []
+  | .subs _ f typ _ _ =>
+    match env.get f with
+    | some (.ts vs) => vs.flatMap (fun v => match C.enc typ v with | .ok (bs, _) => bs | _ => [])
+    | _ => []
+  | .opt _ w e f _ => match env.get f with | some (.n x) => if x = 0 then [] else intBytes w e x | _ => []
 
 /-- bytes of a sequence of slots: the encoding a layout prescribes for the field values -/
 def layoutBytes (C : Codecs) (env : Env) (l : List Slot) : Bytes := l.flatMap (slotBytes C env)
@@ -540,12 +556,25 @@ def consistentSlots (C : Codecs) (env : Env) : List Slot → Bool
               (match C.dec typ bs with | .ok (_, k) => k == bs.length | _ => false)
           | _ => false)
       | _ => false) && consistentSlots C env r
+  | .ints _ w _ f _ :: r => (match env.get f with | some (.ns xs) => xs.all (· < 256 ^ w) | _ => false) && consistentSlots C env r
+  | .subs _ f typ _ _ :: r =>
+    (match env.get f with
+      | some (.ts vs) => vs.all (fun v => match C.enc typ v with | .ok _ => true | _ => false)
+      | _ => false) && consistentSlots C env r
+  | .opt _ w _ f _ :: r => (match env.get f with | some (.n x) => x < 256 ^ w | _ => false) && consistentSlots C env r
 
 /-- a nested value is in its type's domain: it encodes, and its own encoding decodes back to it,
     consuming exactly what was written -/
 def tupOk (C : Codecs) (typ : String) (v : Tup) : Bool :=
   match C.enc typ v with
   | .ok (bs, v') => (match C.dec typ bs with | .ok (d, k) => k == bs.length && d == v' | _ => false)
+  | _ => false
+
+/-- a nested value is a fixed point of its encoder: `Marshal` leaves it as it is (a list element is marshalled
+    as a copy, so the command keeps the element while the wire carries what `Marshal` made of it) -/
+def tupFix (C : Codecs) (typ : String) (v : Tup) : Bool :=
+  match C.enc typ v with
+  | .ok (_, v') => v' == v
   | _ => false
 
 /-- laws the nested codecs must satisfy for the types `T` (for the standard codecs they follow from the
@@ -616,7 +645,8 @@ def intsFit (env : Env) : List MStmt → Bool
 /-- the relations between fields the unmarshal program relies on: a buffer read with length
     `int(c.G)` has exactly that many bytes, a counted list has exactly `c.G` entries, padding has the
     computed length (`plen`: the length of the command's own parameter bytes, which the alignment rule
-    `(len(P)+3)%2` of SESSION_SETUP_ANDX looks at), fixed arrays have their size, nested values are in their domain.  Window sizes
+    `(len(P)+3)%2` of SESSION_SETUP_ANDX looks at), fixed arrays have their size, nested values are in their domain (the
+    elements of a counted list moreover as `Marshal` leaves them: `tupFix`).  Window sizes
     and entry sizes of the program are *not* consulted: they are the library's business. -/
 def relationsHold (C : Codecs) (env : Env) (plen : Nat) : (pad : Nat) → List UStmt → Bool
   | _, [] => true
@@ -630,7 +660,9 @@ def relationsHold (C : Codecs) (env : Env) (plen : Nat) : (pad : Nat) → List U
   | pad, .forCountInt _ _ _ f g :: r =>
     (match env.get f, env.get g with | some (.ns xs), some (.n k) => xs.length == k | _, _ => false) && relationsHold C env plen pad r
   | pad, .forCountSub _ f g typ _ :: r =>
-    (match env.get f, env.get g with | some (.ts vs), some (.n k) => vs.length == k && vs.all (tupOk C typ) | _, _ => false) && relationsHold C env plen pad r
+    (match env.get f, env.get g with
+      | some (.ts vs), some (.n k) => vs.length == k && vs.all (tupOk C typ) && vs.all (tupFix C typ)
+      | _, _ => false) && relationsHold C env plen pad r
   | pad, .whileFitsSub _ f typ _ :: r =>
     (match env.get f with | some (.ts vs) => vs.all (tupOk C typ) | _ => false) && relationsHold C env plen pad r
   | pad, .cstrUnicode f :: r =>
